@@ -1128,6 +1128,11 @@ class FormulaManager(object):
                     raise PysmtValueError("Array initialization indexes must "
                                           "be constants")
                 # It is useless to represent assignments equal to the default
+                # (the index of a dropped assignment is still checked)
+                if assigned_values[k] == default and \
+                   self.env.stc.get_type(k) != idx_type:
+                    raise PysmtTypeError("Array index '%s' is not of sort %s" %
+                                         (k, idx_type))
                 if assigned_values[k] != default:
                     args.append(k)
                     args.append(assigned_values[k])
